@@ -2,6 +2,7 @@
 import json
 
 from lib import vf
+from lib.props import _sesskey
 from lib.props import _mach
 
 
@@ -60,3 +61,4 @@ def run(ctx):
     if n and dropped == 0:
         raise vf.InfraError("connloss: %d scenarios but no dropped connection (the fault was not exercised)" % n)
     ctx.rule += "; plus %d scenarios in which the provider processes the grant and the kept-alive (reused or fresh) connection is lost before a response byte" % n
+    _sesskey.run_sesskey(ctx, "C07")
